@@ -374,7 +374,7 @@ func (a *Act) callMods(c *ssa.CallCommon, mods map[string]bool, seen map[*ssa.Fu
 		tr.eng.stubMods(name, mods, tr)
 		return false
 	}
-	if fc := tr.eng.contracts.forFunc(callee); fc != nil && fc.modular() {
+	if fc := tr.eng.contracts.forFunc(callee); fc != nil && fc.modular() && fc.explicitFrame() {
 		return fc.mods(tr, mods)
 	}
 	inMod := callee.Pkg != nil && strings.HasPrefix(callee.Pkg.Pkg.Path(), modulePath) || callee.Parent() != nil || isInstantiation(callee)
@@ -387,12 +387,38 @@ func (a *Act) callMods(c *ssa.CallCommon, mods map[string]bool, seen map[*ssa.Fu
 		}
 		return false
 	}
-	if len(callee.Blocks) == 0 || seen[callee] || depth >= maxInlineDepth {
+	if len(callee.Blocks) == 0 {
 		return true
+	}
+	if seen[callee] {
+		return false // already being scanned: contributes nothing new
+	}
+	if cached, ok := tr.eng.modsCache[callee]; ok && len(seen) == 0 {
+		for k := range cached.mods {
+			mods[k] = true
+		}
+		return cached.all
+	}
+	topLevel := len(seen) == 0
+	var own map[string]bool
+	if topLevel {
+		own = map[string]bool{}
+		outer := mods
+		mods = own
+		defer func() {
+			for k := range own {
+				outer[k] = true
+			}
+		}()
 	}
 	seen[callee] = true
 	defer delete(seen, callee)
 	all := false
+	defer func() {
+		if topLevel {
+			tr.eng.modsCache[callee] = modsEntry{mods: own, all: all}
+		}
+	}()
 	// use a scratch activation for local-component lookup (callee locals are invisible to us)
 	scratch := &Act{tr: tr, fn: callee, lvs: map[ssa.Value]*LV{}}
 	for _, b := range callee.Blocks {
@@ -424,4 +450,17 @@ func rootAlloc(v ssa.Value) (*ssa.Alloc, bool) {
 			return nil, false
 		}
 	}
+}
+
+type modsEntry struct {
+	mods map[string]bool
+	all  bool
+}
+
+// calleeMods: components a module function may write (transitively), and whether that is unknown.
+func (a *Act) calleeMods(callee *ssa.Function) (map[string]bool, bool) {
+	mods := map[string]bool{}
+	cc := &ssa.CallCommon{Value: callee}
+	all := a.callMods(cc, mods, map[*ssa.Function]bool{}, 0)
+	return mods, all
 }
